@@ -1,14 +1,15 @@
 #!/bin/bash
-# Applies each behaviour-preserving change under /verif/benign to /repo and runs
+# Applies each behaviour-preserving change under $V/benign to $R and runs
 # the quick checks of the properties it touches: none may raise an alarm.
-cd /verif
-export VERIF_SCRATCH_OUT=/tmp/verif_scratch_out  # runs on a modified tree must not touch /verif/evidence
+V=${VERIF_DIR:-/verif}; R=${VERIF_REPO_DIR:-/repo}  # an isolated copy: VERIF_DIR=<copy of /verif> VERIF_REPO_DIR=VERIF_REPO=<worktree of /repo>
+cd $V
+export VERIF_SCRATCH_OUT=${TMPDIR:-/tmp}/verif_scratch_out  # runs on a modified tree must not touch $V/evidence
 run() { f=$1; shift
-  cd /repo; [ -z "$(git status --porcelain)" ] || { echo "repo not clean"; exit 2; }
-  git apply /verif/benign/$f || { echo "BENIGN: $f does not apply"; return; }
-  for id in "$@"; do (cd /verif && ./check $id quick >/tmp/benign_$id.log 2>&1); rc=$?
-    echo "BENIGN: change=$f check=$id exit=$rc known=$(grep -c '^KNOWN' /tmp/benign_$id.log) hooks_fallback=$(grep -c 'falling back' /tmp/benign_$id.log)"; done
-  git -C /repo checkout -q -- .; cd /verif; }
+  cd $R; [ -z "$(git status --porcelain)" ] || { echo "repo not clean"; exit 2; }
+  git apply $V/benign/$f || { echo "BENIGN: $f does not apply"; return; }
+  for id in "$@"; do (cd $V && ./check $id quick >${TMPDIR:-/tmp}/benign_$id.log 2>&1); rc=$?
+    echo "BENIGN: change=$f check=$id exit=$rc known=$(grep -c '^KNOWN' ${TMPDIR:-/tmp}/benign_$id.log) hooks_fallback=$(grep -c 'falling back' ${TMPDIR:-/tmp}/benign_$id.log)"; done
+  git -C $R checkout -q -- .; cd $V; }
 run heapq-f1f2-repaired.diff C05 C06 C08 C09
 run stree-rename-private-field.diff C01 C02 C03 C04
 run cache-rwmutex-readers.diff C08 C09
